@@ -110,7 +110,7 @@ def base_grid(tier, monitors, gregory_only=False, meek_only=False, symtie=False,
             jobs.append(job('qpq', {}, 4, 2, 2, 4 if quick else 5, monitors, B, symtie=symtie, weight=6))
     # withdrawn / undeclared
     if withdrawn:
-        wj = [('wigm-prf', {}, [2], None), ('scotland', {}, [1], None), ('mpls', {}, None, [3]), ('mpls', {}, [1], [3]),
+        wj = [('wigm-prf', {}, [2], None), ('scotland', {}, [1], None), ('mpls', {}, None, [3]), ('mpls', {}, [1], [3]), ('mpls', {}, [4], [4]),
               ('meek', {'arithmetic': 'fixed', 'precision': 3, 'omega': 2}, [3], None), ('qpq', {}, [2], None),
               ('wigm', dict(FX2), [1, 3], None)]
         if not quick:
@@ -124,7 +124,7 @@ def base_grid(tier, monitors, gregory_only=False, meek_only=False, symtie=False,
                 continue
             if meek_only and rule not in ('meek', 'warren', 'meek-prf'):
                 continue
-            n = 4 if (wd and len(wd) == 1 and not und) else 3
+            n = 4 if (wd and len(wd) == 1 and (not und or und == wd)) else 3
             elig = n - len(wd or [])
             for seats in range(1, min(2, elig) + 1):
                 jobs.append(job(rule, opts, n, seats, 2 if n == 4 else 3, 6 if n == 4 else 6 + bump, monitors, B, withdrawn=wd,
